@@ -167,7 +167,7 @@ def check_exact_conversion(ck, rule, prog, body_id, what):
                     bad.append("casts %s to %s (line %s)" % (src, dst, st.line))
             if st.k == "assign" and st.rv["k"] == "bin":
                 bad.append("computes with `%s` (line %s)" % (st.rv["op"], st.line))
-    ck.ob(rule, "exact-conversion/" + b.short.rsplit("::", 1)[-1], not bad, "%s %s" % (b.short, ("converts %s exactly or fails" % what) if not bad else ("is not an exact-or-fail conversion of %s: it %s - large values are silently changed instead of being rejected" % (what, "; ".join(bad[:2])))), where=b.where())
+    ck.ob(rule, "exact-conversion/" + (b.short if b.impl_trait else b.short.rsplit("::", 1)[-1]), not bad, "%s %s" % (b.short, ("converts %s exactly or fails" % what) if not bad else ("is not an exact-or-fail conversion of %s: it %s - large values are silently changed instead of being rejected" % (what, "; ".join(bad[:2])))), where=b.where())
 
 
 def termid_display_width(prog):
